@@ -128,7 +128,7 @@ def xr(f, i, defs=None, depth=0):
         defs = local_defs(f)
     i = f.strip(i)
     n = f.nodes[i]
-    if n["k"] == "DeclRefExpr" and n["ref"]["dk"] == "local" and depth < 6:
+    if n["k"] == "DeclRefExpr" and n["ref"]["dk"] == "local" and depth < 6 and not n.get("t", "").endswith("]"):
         init = single_def(f, n["ref"]["id"], defs)
         if init is not None:
             return xr(f, init, defs, depth + 1)
@@ -153,7 +153,7 @@ def no_casts(s):
     prev = None
     while prev != s:
         prev = s
-        s = re.sub(r"\((?:const |unsigned |volatile )*[A-Za-z_][\w:<>, ]*\**(?: \*+)?(?: const)?\)(?=[\w(*&])", "", s)
+        s = re.sub(r"(?<![\w\])>])\((?:const |unsigned |volatile |struct )*[A-Za-z_][\w:<>, ]*(?:\s*\*|\s*const\b|\s*&)*\s*\)(?=[\w(*&!~-])", "", s)
     return s
 
 
